@@ -541,6 +541,41 @@ impl Zone {
         self.types[id].contains(&t)
     }
 
+    /// The delegation point that makes `id` non-authoritative: the TOP-MOST
+    /// ancestor owning NS (the only one classified `Cut`; an NS owner below it
+    /// is itself `BelowCut` and decides nothing).
+    fn top_cut(&self, u: &Universe, id: usize) -> Option<usize> {
+        let mut t = None;
+        let mut p = u.parent[id];
+        while let Some(q) = p {
+            if self.cls[q] == Cls::Cut {
+                t = Some(q);
+            }
+            p = u.parent[q];
+        }
+        t
+    }
+
+    /// Data-owning names strictly below the delegation point `cut`, in
+    /// canonical order.
+    fn data_below(&self, u: &Universe, cut: usize) -> Vec<usize> {
+        (0..u.names.len()).filter(|&i| self.cls[i] == Cls::BelowCut && !self.types[i].is_empty() && self.top_cut(u, i) == Some(cut)).collect()
+    }
+
+    /// Violation-class fragment for a chain record owned by the non-authoritative
+    /// name `id`: says whether the delegation above it has an occluded NS owner
+    /// (nested delegation) among the names below it.
+    fn below_cut_kind(&self, u: &Universe, id: usize) -> &'static str {
+        let nested = self.top_cut(u, id).map(|t| self.data_below(u, t).iter().any(|&i| self.has(i, T_NS))).unwrap_or(false);
+        if self.has(id, T_NS) {
+            "extra-below-cut(occluded-NS-owner-below-the-top-most-cut)"
+        } else if nested {
+            "extra-below-cut(beside-an-occluded-NS-owner-below-the-top-most-cut)"
+        } else {
+            "extra-below-cut(glue-or-occluded)"
+        }
+    }
+
     fn recs_json(&self) -> Value {
         json!(self.recs.iter().map(|(o, t, v)| json!([show_name(o), t, v])).collect::<Vec<_>>())
     }
@@ -1163,7 +1198,7 @@ fn check_nsec(run: &Run, z: &Zone, src: &Src, route: Route, dnskey: bool, deep: 
     for &id in got_set.difference(&exp_set) {
         set_ok = false;
         let k = match z.cls[id] {
-            Cls::BelowCut => "extra-below-cut(glue-or-occluded)",
+            Cls::BelowCut => z.below_cut_kind(u, id),
             Cls::Ent => "extra-empty-non-terminal",
             _ => "extra-nonexistent-name",
         };
@@ -1240,7 +1275,25 @@ fn check_nsec(run: &Run, z: &Zone, src: &Src, route: Route, dnskey: bool, deep: 
     let present = |id: usize, t: u16| z.has(id, t) || (id == u.apex && dnskey && t == T_DNSKEY);
     for q in 0..u.names.len() {
         match z.cls[q] {
-            Cls::BelowCut => loc.inc("probe_skip_below_cut"),
+            Cls::BelowCut => {
+                // A name below a delegation is answered by a referral: what
+                // the chain must offer is the NSEC of the TOP-MOST cut (NS
+                // set, SOA clear, DS exactly as present), the name itself
+                // owns no record, and the only interval containing the name
+                // is the one that starts at that cut (RFC 4035 §3.1.4).
+                loc.probes += 1;
+                loc.inc("probe_nsec_referral_below_cut");
+                let t = z.top_cut(u, q).expect("a name below a cut has a top-most cut");
+                let deleg_ok = matching(t).map(|g| g.types.contains(&T_NS) && !g.types.contains(&T_SOA) && g.types.contains(&T_DS) == z.has(t, T_DS)).unwrap_or(false);
+                if !deleg_ok {
+                    ctx.violation("C13|nsec|denial|below-cut|no-delegation-NSEC-at-the-top-most-cut", &format!("referral for {} needs an NSEC at {} with NS, without SOA, DS as present; zone: {}", u.show(q), u.show(t), z.text()), replay());
+                }
+                if matching(q).is_some() {
+                    ctx.violation("C13|nsec|denial|below-cut|non-authoritative-name-owns-an-NSEC", &format!("{} lies below the delegation {} but owns an NSEC; zone: {}", u.show(q), u.show(t), z.text()), replay());
+                } else if covers(q).map(|(i, _)| got[i].owner) != Some(t) {
+                    ctx.violation("C13|nsec|denial|below-cut|interval-containing-the-name-does-not-start-at-the-top-most-cut", &format!("{} lies below the delegation {} but is covered by {:?}; zone: {}", u.show(q), u.show(t), covers(q).map(|(i, _)| u.show(got[i].owner)), z.text()), replay());
+                }
+            }
             Cls::Cut => {
                 if !z.has(q, T_DS) {
                     loc.probes += 1;
@@ -1617,7 +1670,7 @@ fn check_nsec3(run: &Run, z: &Zone, src: &Src, route: Route, n3: &N3Run, deep: b
             "extra-insecure-delegation-despite-optout-exclusion"
         } else {
             match z.cls[id] {
-                Cls::BelowCut => "extra-below-cut(glue-or-occluded)",
+                Cls::BelowCut => z.below_cut_kind(u, id),
                 _ => "extra-nonexistent-name",
             }
         };
@@ -1756,7 +1809,32 @@ fn check_nsec3(run: &Run, z: &Zone, src: &Src, route: Route, n3: &N3Run, deep: b
     };
     for q in 0..n {
         match z.cls[q] {
-            Cls::BelowCut => loc.inc("probe_skip_below_cut"),
+            Cls::BelowCut => {
+                // referral: the NSEC3 matching the TOP-MOST cut (NS set, SOA
+                // clear, DS exactly as present) or, when that delegation is
+                // opted out, the closest-provable-encloser proof checked in
+                // the Cut arm; the name itself (existing or not) has no
+                // matching NSEC3 (RFC 5155 §7.1: only authoritative names and
+                // their empty non-terminals are hashed)
+                loc.probes += 1;
+                loc.inc("probe_nsec3_referral_below_cut");
+                let t = z.top_cut(u, q).expect("a name below a cut has a top-most cut");
+                match matching(t) {
+                    Some(g) => {
+                        if !(g.types.contains(&T_NS) && !g.types.contains(&T_SOA) && g.types.contains(&T_DS) == z.has(t, T_DS)) {
+                            ctx.violation("C13|nsec3|denial|below-cut|NSEC3-of-the-top-most-cut-is-not-a-delegation-proof", &format!("referral for {} needs the NSEC3 of {} to list NS, not SOA, DS as present; it lists [{}]; cfg {:?}; zone: {}", u.show(q), u.show(t), tnames(&g.types), cfg, z.text()), replay());
+                        }
+                    }
+                    None => {
+                        if !excluded[t] {
+                            ctx.violation("C13|nsec3|denial|below-cut|no-NSEC3-for-the-top-most-cut", &format!("referral for {}: the delegation {} has no NSEC3 and is not opted out; cfg {:?}; zone: {}", u.show(q), u.show(t), cfg, z.text()), replay());
+                        }
+                    }
+                }
+                if matching(q).is_some() {
+                    ctx.violation("C13|nsec3|denial|below-cut|non-authoritative-name-has-a-matching-NSEC3", &format!("{} lies below the delegation {} but has a matching NSEC3; cfg {:?}; zone: {}", u.show(q), u.show(t), cfg, z.text()), replay());
+                }
+            }
             Cls::Cut => {
                 if z.has(q, T_DS) {
                     continue;
@@ -1898,6 +1976,73 @@ const EXTRA_PROBES: [&str; 20] = [
     "0.z.", "b.z.", "zzz.z.", "a.a.z.", "x.b.a.z.", "x.y.a.z.", "x.c.z.", "x.g.c.z.", "x.d.z.", "j.f.z.", "x.e.f.z.", "x.k.e.f.z.", "x.h.f.z.", "x.y.f.z.",
     "x.y.z.", "e.z.", "cc.z.", "x.o.c.z.",
 ];
+
+// ---- the "what sits below a zone cut" dimension (second enumeration)
+
+const T_DNAME: u16 = 39;
+
+/// Universe of the below-the-cut sweep, in canonical order:
+///   z.  a.z.  c.z.  a.c.z.  x.a.c.z.  g.c.z.  z.c.z.  d.z.  g.d.z.
+/// `c.z.` is the delegation point (NS / NS+DS / NS + glue A at the cut owner
+/// / nothing, which moves the top-most cut one level down); below it three
+/// sibling names (canonically first, middle, last below the cut) and one
+/// deeper name under the first, each independently carrying one of the
+/// "below" kinds; after the whole subtree `d.z.` (nothing / plain owner /
+/// second delegation) with `g.d.z.` below it, so that the subtree is
+/// followed by nothing, by an authoritative name, by a new cut, or by an ENT.
+/// Below-kinds, simplest first: nothing, A (glue / occluded data), NS
+/// (occluded nested delegation), NS+DS, NS+A; thorough adds DS alone,
+/// TYPE39 (DNAME) and SOA (a child apex copied into the parent).
+fn bc_slots(quick: bool) -> Vec<Slot> {
+    let s = |name: &'static str, kinds: &[&[u16]]| Slot { name, variant: 1, kinds: kinds.iter().map(|k| k.to_vec()).collect() };
+    let q: &[&[u16]] = &[&[], &[T_A], &[T_NS], &[T_NS, T_DS], &[T_NS, T_A]];
+    let t: &[&[u16]] = &[&[], &[T_A], &[T_NS], &[T_NS, T_DS], &[T_NS, T_A], &[T_DS], &[T_DNAME], &[T_SOA]];
+    let below = if quick { q } else { t };
+    vec![
+        s("a.z.", &[&[], &[T_A]]),
+        s("c.z.", &[&[], &[T_NS], &[T_NS, T_DS], &[T_NS, T_A]]),
+        s("a.c.z.", below),
+        s("x.a.c.z.", below),
+        s("g.c.z.", below),
+        s("z.c.z.", below),
+        s("d.z.", &[&[], &[T_A], &[T_NS]]),
+        s("g.d.z.", &[&[], &[T_A]]),
+    ]
+}
+
+/// Probe names of the sweep in addition to the slot names, their ancestors
+/// and wildcard children: beside the cut (before it, between its subtree and
+/// the next name, after everything) and below it (before / between / after /
+/// under the names that exist there).
+const BC_PROBES: [&str; 14] = ["0.z.", "b.z.", "cc.z.", "e.z.", "0.c.z.", "b.c.z.", "y.a.c.z.", "x.x.a.c.z.", "x.g.c.z.", "x.z.c.z.", "zz.c.z.", "x.d.z.", "x.g.d.z.", "x.a.z."];
+
+fn bc_seeds() -> Vec<Labels> {
+    let mut seeds: Vec<Labels> = bc_slots(false).iter().map(|s| parse_name(s.name)).collect();
+    seeds.extend(BC_PROBES.iter().map(|s| parse_name(s)));
+    seeds
+}
+
+fn build_universe_bc() -> Universe {
+    Universe::build(&parse_name(APEX), &bc_seeds(), param_menu())
+}
+
+/// NSEC3 configurations of the below-the-cut sweep.  Quick: the RFC 9276
+/// parameters without opt-out, with opt-out + exclusion, with opt-out
+/// without exclusion, and (AB, 5) without opt-out (another hash order); the
+/// refs / Vec<u8> routes add (AB, 1) opt-out + exclusion.  Thorough: every
+/// (salt, iterations) of the menu x the three opt-out modes.
+fn bc_nsec3_configs(quick: bool) -> Vec<N3Cfg> {
+    let mut v = Vec::new();
+    for (salt, it) in param_menu() {
+        for (opt_out, exclude) in [(false, true), (true, true), (true, false)] {
+            let keep = !quick || (salt.is_empty() && it == 0) || (salt.len() == 1 && it == 5 && !opt_out);
+            if keep {
+                v.push(N3Cfg { salt: salt.clone(), iters: it, opt_out, exclude, dnskey: true, ttl_mode: 0 });
+            }
+        }
+    }
+    v
+}
 
 fn build_universe(extra: &[Labels]) -> Universe {
     let mut seeds: Vec<Labels> = slots(false).iter().map(|s| parse_name(s.name)).collect();
@@ -2465,7 +2610,10 @@ fn run_replay(ctx: &Ctx, path: &str) -> ! {
         .iter()
         .map(|r| (parse_name(r[0].as_str().unwrap()), r[1].as_u64().unwrap() as u16, r[2].as_u64().unwrap() as u8))
         .collect();
-    let extra: Vec<Labels> = recs.iter().map(|r| r.0.clone()).collect();
+    // superset of both enumeration universes (more probe names never hide a
+    // recorded violation)
+    let mut extra: Vec<Labels> = recs.iter().map(|r| r.0.clone()).collect();
+    extra.extend(bc_seeds());
     let mut u = build_universe(&extra);
     let mut loc = Local::default();
     let n3 = if case["mode"] == "nsec3" {
@@ -2526,6 +2674,12 @@ fn run_replay(ctx: &Ctx, path: &str) -> ! {
 /// `deep_all`: wire round-trip / presentation checks on every run (else only
 /// on the first NSEC and the first NSEC3 configuration).
 fn run_zone(run: &Run, recs: Vec<(Labels, u16, u8)>, n3runs: &[N3Run], route_cfg: &N3Run, extra_routes: &[Route], deep_all: bool, loc: &mut Local) -> Option<Zone> {
+    run_zone_opt(run, recs, n3runs, route_cfg, extra_routes, deep_all, true, loc)
+}
+
+/// `container`: also run the SortedRecords construction-route checks.
+#[allow(clippy::too_many_arguments)]
+fn run_zone_opt(run: &Run, recs: Vec<(Labels, u16, u8)>, n3runs: &[N3Run], route_cfg: &N3Run, extra_routes: &[Route], deep_all: bool, container: bool, loc: &mut Local) -> Option<Zone> {
     let (ctx, u) = (run.ctx, run.u);
     let (sorted, sorted_v) = match guard(|| (sorted_of(&recs), sorted_v_of(&recs))) {
         Ok(s) => s,
@@ -2535,7 +2689,9 @@ fn run_zone(run: &Run, recs: Vec<(Labels, u16, u8)>, n3runs: &[N3Run], route_cfg
         }
     };
     let eff = check_sorted(run, &recs, &sorted, loc);
-    check_routes(run, &recs, &sorted, &sorted_v, loc);
+    if container {
+        check_routes(run, &recs, &sorted, &sorted_v, loc);
+    }
     check_iters(run, &recs, &sorted, &eff, loc);
     let z = Zone::build_eff(u, recs, &eff);
     let src = Src { sorted: &sorted, sorted_v: Some(&sorted_v) };
@@ -2725,6 +2881,123 @@ fn main() {
         }
     });
 
+    // ---- what sits BELOW a zone cut: every assignment of below-kinds to
+    //      three sibling names and one deeper name under a delegation point
+    //      of every cut kind, x what precedes / follows the subtree
+    let u_bc = build_universe_bc();
+    let bsl = bc_slots(quick);
+    let bc_runs: Vec<N3Run> = bc_nsec3_configs(quick).into_iter().map(|c| N3Run::new(&u_bc, c)).collect();
+    let bc_route_cfg = N3Run::new(&u_bc, N3Cfg { salt: vec![0xAB], iters: 1, opt_out: true, exclude: true, dnskey: true, ttl_mode: 2 });
+    let bc_zones: u64 = bsl.iter().map(|s| s.kinds.len() as u64).product();
+    let c_id = u_bc.id_of(&parse_name("c.z.")).unwrap();
+    (0..bc_zones.div_ceil(CHUNK)).into_par_iter().for_each(|ch| {
+        let mut loc = Local::default();
+        let u = &u_bc;
+        let run = Run { ctx: &ctx, u, apex: lname(&u.apex_labels), verbose: false };
+        for zi in ch * CHUNK..((ch + 1) * CHUNK).min(bc_zones) {
+            let (recs, _kinds) = zone_of_index(&bsl, zi);
+            wd.enter(|| json!({"below_cut_zone_index": zi, "records": recs.iter().map(|(o, t, v)| json!([show_name(o), t, v])).collect::<Vec<_>>()}));
+            let Some(z) = run_zone_opt(&run, recs, &bc_runs, &bc_route_cfg, &[Route::Refs, Route::VecOcts], false, false, &mut loc) else {
+                wd.leave();
+                continue;
+            };
+            loc.inc("below_cut_zones");
+            // shape histogram (vacuity exposure)
+            let n = u.names.len();
+            match z.cls[c_id] {
+                Cls::Cut => loc.inc(if z.has(c_id, T_DS) {
+                    "below_cut_zones_top_cut_c_secure(NS+DS)"
+                } else if z.has(c_id, T_A) {
+                    "below_cut_zones_top_cut_c_with_glue_at_the_cut_owner(NS+A)"
+                } else {
+                    "below_cut_zones_top_cut_c_insecure(NS)"
+                }),
+                _ => loc.inc("below_cut_zones_c_without_NS(top-most_cut_one_level_down_or_none)"),
+            }
+            let cuts: Vec<usize> = (0..n).filter(|&i| z.cls[i] == Cls::Cut).collect();
+            let (mut nested, mut followed, mut deep2, mut nested_below_nested) = (false, false, false, false);
+            for &t in &cuts {
+                let l = z.data_below(u, t);
+                for (k, &i) in l.iter().enumerate() {
+                    if u.names[i].len() >= u.names[t].len() + 2 {
+                        deep2 = true;
+                    }
+                    if !z.has(i, T_NS) {
+                        continue;
+                    }
+                    nested = true;
+                    loc.inc(if l.len() == 1 {
+                        "below_cut_occluded_NS_owner_is_the_only_name_below_the_cut"
+                    } else if k == 0 {
+                        "below_cut_occluded_NS_owner_canonically_first_below_the_cut"
+                    } else if k + 1 == l.len() {
+                        "below_cut_occluded_NS_owner_canonically_last_below_the_cut"
+                    } else {
+                        "below_cut_occluded_NS_owner_in_the_middle_below_the_cut"
+                    });
+                    if l[k + 1..].iter().any(|&m| !at_or_below(&u.names[m], &u.names[i])) {
+                        followed = true;
+                    }
+                    if l[k + 1..].iter().any(|&m| at_or_below(&u.names[m], &u.names[i]) && z.has(m, T_NS)) {
+                        nested_below_nested = true;
+                    }
+                }
+            }
+            if nested {
+                loc.inc("below_cut_zones_with_occluded_NS_owner_below_a_cut");
+            }
+            if followed {
+                loc.inc("below_cut_zones_with_occluded_NS_owner_followed_by_a_name_below_the_same_cut_but_not_below_it");
+            }
+            if nested_below_nested {
+                loc.inc("below_cut_zones_with_three_NS_levels");
+            }
+            if deep2 {
+                loc.inc("below_cut_zones_with_name_two_labels_below_the_cut");
+            }
+            if (0..n).any(|i| z.cls[i] == Cls::BelowCut && z.has(i, T_DS)) {
+                loc.inc("below_cut_zones_with_DS_below_a_cut");
+            }
+            if (0..n).any(|i| z.cls[i] == Cls::BelowCut && (z.has(i, T_SOA) || z.has(i, T_DNAME))) {
+                loc.inc("below_cut_zones_with_SOA_or_DNAME_below_a_cut");
+            }
+            if cuts.len() >= 2 {
+                loc.inc("below_cut_zones_with_two_or_more_top_most_cuts");
+            }
+            if let Some(last) = (0..n).rev().find(|&i| !z.types[i].is_empty()) {
+                if z.cls[last] == Cls::BelowCut {
+                    loc.inc("below_cut_zones_ending_in_a_name_below_a_cut");
+                }
+            }
+            if zone_is_nontrivial(&z) {
+                let mut k = vec![0xbc];
+                for (o, t, v) in &z.recs {
+                    k.extend_from_slice(&wire(o));
+                    k.extend_from_slice(&t.to_le_bytes());
+                    k.push(*v);
+                }
+                for mode in [0u8, 3] {
+                    let mut kk = k.clone();
+                    kk.push(mode);
+                    loc.distinct.push(fnv(&kk));
+                }
+            }
+            wd.leave();
+        }
+        stats.distinct_many(loc.distinct.drain(..));
+        shapes.lock().unwrap().extend(loc.shapes.drain(..));
+        let mut t = total.lock().unwrap();
+        t.evals += loc.evals;
+        t.probes += loc.probes;
+        for (k, v) in &loc.c {
+            t.add(k, *v);
+        }
+        for i in 0..32 {
+            t.nsec_len[i] += loc.nsec_len[i];
+            t.nsec3_len[i] += loc.nsec3_len[i];
+        }
+    });
+
     // deterministic samples: fixed zone indices, rendered serially
     let mut samples = Vec::new();
     {
@@ -2797,6 +3070,17 @@ fn main() {
                 "container_checks_per_zone": "SortedRecords via From<Vec>, new()+insert() in reverse order (+ duplicate refused), superset shrunk by remove_first/remove_all_by_name_class_rtype (+ return values), update_data on the apex SOA, into_inner/len/is_empty/iter/deref, Vec<u8> octets: identical content; owner_rrs()/rrsets()/OwnerRrs::rrsets()/find_soa/find_apex_rtype/is_zone_cut/is_in_zone against own grouping of the held records",
                 "record_api_checks": "every generated record: RtypeBitmap::iter/into_iter/contains/is_empty against own decoding; NSEC/NSEC3 TTL = min(SOA TTL, SOA MINIMUM) (SOA TTL above MINIMUM without extras, below with extras); NSEC3PARAM owner/algorithm/iterations/salt/class and TTL per Nsec3ParamTtlMode; 'deep' runs (first NSEC and first NSEC3 configuration of every product zone, every run of the type sweep) additionally: compose_rdata == own RFC 4034 §4.1 / RFC 5155 §3.2 wire form, rdlen, parse(compose) == record, RtypeBitmap::from_octets/compose/compose_len, OwnerHash Display/FromStr against own base32hex",
                 "zone_independent_checks": "nsec3_hash in three octets instantiations + nsec3_default_hash for every closure name in lower and upper case x the (salt, iterations) menu against own hash; algorithms 0/2/255 refused (nsec3_hash and generate_nsec3s); Nsec3Salt and OwnerHash constructors/presentation; RtypeBitmapBuilder (new_vec, RtypeBitmap::builder, Default, with_builder) fed every ordered pair of the 93-type menu and every ordered triple of its window-boundary sub-menu against own encoder, then bitmap API checks",
+                "below_cut_dimension": {
+                    "zones": bc_zones,
+                    "slots": bsl.iter().map(|s| json!({"name": s.name, "kinds": s.kinds.iter().map(|k| tnames(k)).collect::<Vec<_>>()})).collect::<Vec<_>>(),
+                    "canonical_order": "z. a.z. c.z. a.c.z. x.a.c.z. g.c.z. z.c.z. d.z. g.d.z. (full product of the slots; apex SOA + NS always)",
+                    "authoritative_rule": "RFC 4035 §2.3 / RFC 5155 §7.1: a non-apex NS owner that is not itself below another NS owner is the (top-most) cut; everything strictly below it is non-authoritative whatever it owns (NS, NS+DS, NS+A, DS, TYPE39=DNAME, SOA, A); with c.z. empty the names below it become authoritative owners / cuts themselves and c.z. an empty non-terminal",
+                    "nsec_configs": ["assume_dnskeys_will_be_added = true", "false"],
+                    "nsec3_configs": bc_runs.iter().map(|c| c.cfg.json()).collect::<Vec<_>>(),
+                    "routes": "owned x every configuration; refs and vec-octets x NSEC + NSEC3 (AB,1,opt-out+exclusion)",
+                    "probe_names": u_bc.names.len(),
+                    "probes": "every closure name x 12 types as in the main product; for a name below a cut (existing or not): delegation record at the TOP-MOST cut (NS, no SOA, DS as present; or opt-out proof), no record owned by / matching the name, NSEC interval containing it starts at the top-most cut",
+                },
                 "probe_names": u.names.len(),
                 "probe_types": PROBE_TYPES.iter().map(|t| tname(*t)).collect::<Vec<_>>(),
             },
@@ -2813,7 +3097,8 @@ fn main() {
             "RFC 5155 §7.1 lets an empty non-terminal that is only derived from opted-out insecure delegations be left out: the oracle accepts it present or absent",
             "delegation bitmaps are checked against the property text (parent-side types NS/DS only, RRSIG in NSEC3 only with DS)",
             "TTLs are asserted as documented on the generators (RFC 9077 for NSEC/NSEC3, Nsec3ParamTtlMode for NSEC3PARAM); the NSEC3PARAM flags field is only observed (the library copies the Opt-Out flag into it), its other fields are asserted per RFC 5155 §7.1 step 8",
-            "probes at or below delegation points other than DS-at-the-cut, and at names owning a CNAME, are not denials and are skipped",
+            "a probe strictly below a delegation point is not a denial but a referral: checked is the delegation record at the top-most cut (NS, no SOA, DS as present) and that nothing below the cut owns or matches a record; type probes at the cut other than DS, and at names owning a CNAME, are skipped",
+            "authoritative = not strictly below any non-apex NS owner (RFC 4035 §2.3); of several NS owners on one branch only the top-most is a delegation point of this zone, the others are occluded data",
         ],
     );
 }
